@@ -1,25 +1,17 @@
-"""Per-property configuration of bin/check: theorem modules, correspondence streams,
-evidence wording.  Counts in evidence are measured at run time, never taken from here."""
+"""Loads the per-property configuration files bin/props/Cxx.py (PROP: theorem modules,
+correspondence streams, evidence wording; TEXT: MANIFEST wording).  Counts in evidence are
+measured at run time, never taken from here."""
+import glob
+import importlib.util
+import os
 
-COMMON_TRUST = [
-    "Lean 4.33.0 kernel (thorough tier re-checks the compiled module with leanchecker)",
-    "axioms: propext, Classical.choice, Quot.sound only (audited per theorem on every run); no native_decide, no bv_decide, no sorry",
-    "bin/extract.py (regex-level translator of tables/constants from /repo into WfModel/Generated.lean)",
-    "the Rust correspondence harness /verif/harness and its generators (sampling: bounds what is seen of the code)",
-    "the hand-written Lean model is tied to the code only by that correspondence and by the extracted tables",
-]
-
-PROPS = {
-    "C09": {
-        "modules": ["WfModel.Props.C09"],
-        "streams": [{"name": "inset", "shards": {"quick": 4, "thorough": 16}}],
-        "rule": "cases = (brace list, probe) pairs executed through real `field in {...}` filters: every list of <=3 (quick) / <=4 (thorough) ranges over a 7-point integer domain x 9 probes, every list of <=2/<=3 items (explicit ranges and CIDRs) over an 8-address IPv4 and IPv6 block x 10 probes, random lists of <=40 items clustered around each other and the type extremes, byte-string sets; non-trivial = list has >=2 items of which two overlap, touch or nest (bytes: >=2 items); distinct by (list, probe)",
-        "trusted_base": COMMON_TRUST + [
-            "modelled, not verified: Rust std sort_unstable_by_key (any start-sorted permutation; theorem quantifies over all), Vec::dedup_by, slice::binary_search_by (modelled as a halving search), BTreeSet::contains, the cidr crate's first_address/last_address, IpAddr/i64 literal parsing (rendered by the harness)",
-        ],
-        "assumptions": [
-            "std::binary_search_by returns Ok iff some element compares Equal on a slice partitioned Less*/Equal*/Greater* (proved for the merged list)",
-            "closure compilation is modelled as direct evaluation",
-        ],
-    },
-}
+_here = os.path.dirname(os.path.abspath(__file__))
+PROPS = {}
+TEXT = {}
+for _p in sorted(glob.glob(os.path.join(_here, "props", "C*.py"))):
+    _id = os.path.basename(_p)[:-3]
+    _spec = importlib.util.spec_from_file_location("wfprops_" + _id, _p)
+    _m = importlib.util.module_from_spec(_spec)
+    _spec.loader.exec_module(_m)
+    PROPS[_id] = _m.PROP
+    TEXT[_id] = _m.TEXT
